@@ -65,6 +65,29 @@ func NewCtx(p *Program, prop, tier string, seed int64, verifDir string, known []
 		floors: map[string][2]int{}, funcs: map[string]bool{}, known: known, extra: map[string]any{}}
 }
 
+// LoadCorpus embeds the result of the thorough tier's self-validation corpus and extra configurations.
+func (c *Ctx) LoadCorpus(path string) {
+	b, err := os.ReadFile(path)
+	if err != nil {
+		c.Errorf("cannot read corpus result %s: %v", path, err)
+		return
+	}
+	var doc struct {
+		Variants []map[string]any `json:"variants"`
+		Configs  []map[string]any `json:"configs"`
+		Failures []string         `json:"failures"`
+	}
+	if err := json.Unmarshal(b, &doc); err != nil {
+		c.Errorf("corpus result %s: %v", path, err)
+		return
+	}
+	c.extra["self_validation"] = map[string]any{"variants": doc.Variants, "count": len(doc.Variants)}
+	c.extra["configurations"] = doc.Configs
+	for _, f := range doc.Failures {
+		c.Errorf("self-validation: %s", f)
+	}
+}
+
 // Explain adds a sentence to coverage.explanation (what the rules decide).
 func (c *Ctx) Explain(s string) { c.explanation = append(c.explanation, s) }
 
